@@ -672,7 +672,11 @@ func (c *Codec) Decode(src []byte) (dst framer.Frame, err error) {
 // DecodeStream decodes a frame from the given io reader.
 func (c *Codec) DecodeStream(reader io.Reader) (framer.Frame, error) {
 	c.processUpdates()
-	c.panicIfNotUpdated("Decode")
+	// Bytes can arrive from a peer before the codec has been given its channels (a
+	// data message ahead of the open request), so this is an error, not a panic.
+	if c.mu.seqNum < 1 {
+		return framer.Frame{}, errors.Wrap(validate.ErrValidation, "[framer.codec] - received a frame before the codec was given its channels")
+	}
 	c.reader.Reset(reader)
 
 	var (
@@ -729,12 +733,11 @@ func (c *Codec) DecodeStream(reader io.Reader) (framer.Frame, error) {
 			return errors.Newf("unknown channel key: %v", key)
 		}
 		s.DataType = dataType
-		if dataType.IsVariable() {
-			s.Data = make([]byte, dataLenOrSize)
-		} else {
-			s.Data = make([]byte, dataType.Density().Size(int64(dataLenOrSize)))
+		size := int64(dataLenOrSize)
+		if !dataType.IsVariable() {
+			size = int64(dataType.Density().Size(size))
 		}
-		if _, err = c.reader.Read(s.Data); err != nil {
+		if s.Data, err = c.readData(size); err != nil {
 			return err
 		}
 		if !fgs.equalTimeRanges {
@@ -775,6 +778,29 @@ func (c *Codec) DecodeStream(reader io.Reader) (framer.Frame, error) {
 			return framer.Frame{}, err
 		}
 	}
+}
+
+// readData reads size bytes of series data. The size comes off the wire, so the buffer
+// grows with the bytes that actually arrive instead of being allocated up front: a
+// corrupt or hostile length cannot make the decoder allocate more than about twice the
+// input.
+func (c *Codec) readData(size int64) ([]byte, error) {
+	const chunk = 1 << 16
+	if size <= chunk {
+		data := make([]byte, size)
+		_, err := c.reader.Read(data)
+		return data, err
+	}
+	data := make([]byte, 0, chunk)
+	for int64(len(data)) < size {
+		n := min(size-int64(len(data)), int64(max(len(data), chunk)))
+		data = slices.Grow(data, int(n))
+		if _, err := c.reader.Read(data[len(data) : len(data)+int(n)]); err != nil {
+			return nil, err
+		}
+		data = data[:len(data)+int(n)]
+	}
+	return data, nil
 }
 
 // readTimeRange reads a time range using the codec's reader.
